@@ -43,10 +43,12 @@ func (m *Mutex) Unlock() {
 // RWMutex replaces sync.RWMutex in instrumented packages.
 type RWMutex struct{ mu sync.RWMutex }
 
-// Lock is a scheduling point.
+// Lock is two scheduling points: the request (from which on, as with
+// sync.RWMutex, no new reader is admitted) and the acquisition.
 func (m *RWMutex) Lock() {
 	if rt := active; rt != nil {
-		rt.point(op{kind: opLock, lock: m})
+		rt.point(op{kind: opLockReq, lock: m})
+		rt.point(op{kind: opLock, lock: m, requested: true})
 		return
 	}
 	m.mu.Lock()
@@ -292,16 +294,18 @@ type opKind int
 const (
 	opStart opKind = iota
 	opLock
+	opLockReq
 	opRLock
 	opAccess
 	opYield
 )
 
 type op struct {
-	kind  opKind
-	lock  interface{}
-	name  string
-	write bool
+	kind      opKind
+	lock      interface{}
+	name      string
+	write     bool
+	requested bool // a write lock acquisition that was announced by an opLockReq
 }
 
 func (o op) String() string {
@@ -310,6 +314,8 @@ func (o op) String() string {
 		return "start"
 	case opLock:
 		return fmt.Sprintf("Lock(%p)", o.lock)
+	case opLockReq:
+		return fmt.Sprintf("Lock(%p) requested", o.lock)
 	case opRLock:
 		return fmt.Sprintf("RLock(%p)", o.lock)
 	case opAccess:
@@ -357,6 +363,7 @@ type thread struct {
 
 type lockState struct {
 	version uint64
+	waiting int // writers that have requested the lock and not yet acquired it
 	writer  int // thread id holding the write lock, -1 none
 	readers map[int]int
 	vc      vclock // joined clocks of write releases
@@ -510,7 +517,7 @@ func (rt *runtime) stateKey() string {
 			}
 		}
 		sort.Ints(rs)
-		fmt.Fprintf(&sb, "L%d:%d:%v:%x;", i, ls.writer, rs, ls.version)
+		fmt.Fprintf(&sb, "L%d:%d:%d:%v:%x;", i, ls.writer, ls.waiting, rs, ls.version)
 	}
 	return sb.String()
 }
@@ -524,8 +531,9 @@ func (rt *runtime) enabled(t *thread) bool {
 		ls := rt.lockOf(t.pending.lock)
 		return ls.writer == -1 && len(ls.readers) == 0
 	case opRLock:
-		// writer preference of sync.RWMutex is not modelled: only adds behaviours
-		return rt.lockOf(t.pending.lock).writer == -1
+		// as sync.RWMutex documents, a pending Lock call excludes new readers
+		ls := rt.lockOf(t.pending.lock)
+		return ls.writer == -1 && ls.waiting == 0
 	}
 	return true
 }
@@ -534,8 +542,13 @@ func (rt *runtime) enabled(t *thread) bool {
 func (rt *runtime) apply(t *thread) {
 	o := t.pending
 	switch o.kind {
+	case opLockReq:
+		rt.lockOf(o.lock).waiting++
 	case opLock:
 		ls := rt.lockOf(o.lock)
+		if o.requested {
+			ls.waiting--
+		}
 		ls.writer = t.id
 		t.vc.join(ls.vc)
 		t.vc.join(ls.rvc)
